@@ -79,7 +79,7 @@ Proof.
   destruct (nn_err _); cbn; (eapply calls_ok_one; [exact Hb|]); by destruct d.
 Qed.
 
-Lemma read_calls s fid ts : WF s → G s → calls_ok s (do_read s fid ts).2.
+Lemma read_calls s fid cnt ts : WF s → G s → calls_ok s (do_read s fid cnt ts).2.
 Proof.
   intros Hwf HG. unfold do_read.
   destruct (get_ref s fid) as [| |sf [e d]] eqn:Hg; try apply calls_ok_nil.
@@ -87,7 +87,7 @@ Proof.
   destruct (s_file sf) as [h|] eqn:Hfile; [|apply calls_ok_nil].
   destruct (Hf h eq_refl) as [Hown _]. rewrite Hown.
   destruct (_ =? 1); [apply calls_ok_nil|]. destruct (f_dir h).
-  - destruct (f_done h); [apply calls_ok_nil|].
+  - destruct (f_done h || (cnt =? 0)); [apply calls_ok_nil|].
     destruct (fs_err _); cbn; by eapply calls_ok_one.
   - cbn. by eapply calls_ok_one.
 Qed.
